@@ -341,6 +341,29 @@ def templates():
         T.append([L, ("fndecl", "g", [("p", STR)], STR, [("return", ("bin", "add", ("bin", "add", V("p"), ("s", c1)), ("s", c2)))]), fin(("call", V("g"), [("s", a)]))])
     T.append([L, ("fndecl", "g", [("p", arr(INT))], arr(ANY), [("return", ("bin", "add", ("bin", "add", V("p"), ("array", [I(1)])), ("array", [("s", "z")])))]),
               fin(("call", V("g"), [("array", [I(0)])]))])
+    # a constant name shadowed by a binder (if-set, while-set, match type arm, for, a block-local declaration, a parameter, a
+    # destructuring in a block): after the construct the name is the outer constant again - folded, it trivially is; with the
+    # constant hidden the name is looked up at run time and must still be the outer value
+    for outer, other in ((I(5), 7), (I(0), 1)):
+        ev = ("call", V("e"), [I(other)])
+        after = fin(("tuple", [V("x"), ("bin", "add", V("x"), I(100))]))
+        pre = [L, EFFC, ("set", "x", outer)]
+        T.append(pre + [("ifset", "x", INT, ev, ("block", [mark(2)]), None), after])
+        T.append(pre + [("ifset", "x", INT, ev, ("block", [mark(2), V("x")]), ("block", [I(0)])), after])
+        T.append(pre + [("set", "n", ("mut", INT, I(0))), ("whileset", "x", INT, ev, ("block", [("assign", "add", V("n"), V("x")), ("break",)])), after])
+        T.append(pre + [("match", ev, [("ty", "x", INT, ("block", [mark(3), V("x")]))]), after])
+        T.append(pre + [("set", "r", ("match", ev, [("val", [I(99)], ("block", [I(0)])), ("ty", "x", INT, ("block", [V("x")]))])), after])
+        T.append(pre + [("for", "x", ("post", "iter", ("array", [ev, I(other + 1)])), ("block", [mark(4)])), after])
+        T.append(pre + [("block", [("set", "x", ev)]), after])
+        T.append(pre + [("block", [("set", "x", ev), mark(5)]), after])
+        T.append(pre + [("block", [("destruct", ["x", "y"], ("tuple", [ev, I(3)]))]), after])
+        T.append(pre + [("if", ("bin", "gt", ev, I(-50)), ("block", [("set", "x", I(other))]), None), after])
+        T.append(pre + [("fndecl", "p", [("x", INT)], INT, [("return", ("bin", "mul", V("x"), I(2)))]), ("set", "r", ("call", V("p"), [ev])), after])
+        T.append(pre + [("set", "n", ("mut", INT, I(0))), ("while", ("bin", "lt", ("pre", "deref", V("n")), I(2)),
+                                                      ("block", [("set", "x", ev), ("assign", "add", V("n"), I(1))])), after])
+        # the same inside a function body (folded when the closure is created) and with a closure created after the construct
+        T.append([L, EFFC, ("fndecl", "g", [], ANY, [("set", "x", outer), ("ifset", "x", INT, ev, ("block", [mark(2)]), None), ("return", V("x"))]), fin(("call", V("g"), []))])
+        T.append(pre + [("ifset", "x", INT, ev, ("block", [mark(2)]), None), ("fndecl", "h", [], INT, [("return", V("x"))]), fin(("call", V("h"), []))])
     T += dead_branch_templates()
     # unary operators on constants
     for v in (0, 5, -2**63):
